@@ -91,6 +91,7 @@ func localInts(xs []int) *Val {
 
 func checkRSWhole(c *Ctx, r *Report) {
 	r.Rule("S-RSWHOLE", "ReedSolomonEncoder.Encode and ReedSolomonDecoder.Decode, folded from source together with every function of the package they call (generator cache, GenericGFPoly arithmetic, Euclid, Chien search, Forney), agree with the checker's own field arithmetic on complete small domains: Encode leaves the data symbols in place and appends exactly the remainder of x^r d(x) by the generator for every data word of the listed (field, k, r); Decode returns without error and leaves exactly the codeword for every error pattern of weight <= floor(r/2) on the listed (field, k, r) - over GF(16) with generator base 1 (the Aztec parameter field) and base 0 (the QR convention on the small field), including full-length words (k + r = 15), and over both 256-element fields for weight <= 1; with a single check symbol the uncorrupted word passes; the encoder domains include parity counts whose generator has a coefficient 1", 13)
+	r.DecidedByKeys("S-RSROOTS", "S-RSWHOLE", "Decode folded on complete small domains over fields with generator base 0 and 1: wrong syndromes correct nothing", "common/reedsolomon.ReedSolomonDecoder.Decode")
 	efd, ep := c.funcDeclOf("common/reedsolomon", "ReedSolomonEncoder.Encode")
 	dfd, dp := c.funcDeclOf("common/reedsolomon", "ReedSolomonDecoder.Decode")
 	if efd == nil || dfd == nil {
